@@ -49,8 +49,16 @@ def has_error(text):
 
 
 def has_fault(res):
-    t = res.text() + res.err.decode("latin-1")
-    return res.sig is not None or any(x in t for x in FAULT_TEXTS)
+    """A fault of the tool itself. Source excerpts echoed in diagnostics may contain any text, so only two unforgeable signs
+    count: death by signal / the handler's marker at the start of a line (hook 2 prints it for SEGV, BUS, FPE, ILL, ABRT, which
+    includes bug() and failed assertions), and allocator errors on stderr (excerpts go to stdout)."""
+    if res.sig is not None:
+        return True
+    t = res.text()
+    if t.startswith("VERIF-FAULT-SITE:") or "\nVERIF-FAULT-SITE:" in t:
+        return True
+    e = res.err.decode("latin-1")
+    return "Storage allocation error" in e or "Assertion failed" in e or "assertion failed" in e
 
 
 _TOOL_LINE = re.compile(r'^(#\d+ \((Warning|Error|Fatal Error|Remark|Note)\)|\[L\d+ C\d+\]|"[^"]*", line \d+:|\.*\^+[.^]*$|#\d+ (0x)?[0-9a-f]+ in <|\.\.\.$|Unhandled Exception)')
